@@ -1,4 +1,5 @@
 import PkVerif.Lemmas.Ref
+import PkVerif.Base.Order
 import PkVerif.Gen.Facts
 /-!
 # C20 – blobref text, encodings and ordering are mutually consistent
@@ -118,6 +119,25 @@ theorem C20_less_strict_total (t : Tbl) (ht : t.WF) (a b c : Ref) (ha : WFKnown 
   · exact Or.inl h
   · exact Or.inr (Or.inl (C20_toText_injective t ht a b ha hb h))
   · exact Or.inr (Or.inr h)
+
+/-- **the order every enumeration promises**: a list of supported refs is ascending by `Less` exactly
+when the list of their text forms is ascending byte-wise – a store may sort by either and a client may
+check either, for lists of any length -/
+theorem C20_sorted_by_less_iff_texts_sorted (t : Tbl) (ht : t.WF) (l : List Ref)
+    (hl : ∀ r ∈ l, WFKnown t r) :
+    Pk.Asc less l ↔ Pk.Asc ltB (l.map toText) := by
+  induction l with
+  | nil => simp [Pk.Asc]
+  | cons a tl ih =>
+    cases tl with
+    | nil => simp [Pk.Asc]
+    | cons b tl' =>
+      have ha := hl a (by simp)
+      have hb := hl b (by simp)
+      have ih' := ih (fun r hr => hl r (by simp [hr]))
+      simp only [List.map_cons] at ih' ⊢
+      simp only [Pk.Asc]
+      rw [C20_less_iff_text_lt t ht a b ha hb, ih']
 
 /-- `EqualString` on a supported ref decides equality with the text form and cannot panic -/
 theorem C20_equalString_iff (t : Tbl) (r : Ref) (hr : WFKnown t r) (s : Bytes) :
